@@ -112,6 +112,27 @@ fn class_byte(class: usize) -> BoxedStrategy<u8> {
     }
 }
 
+/// Long inputs of one compact class (digits / the 45-set) with ONE generated byte of a generated class at the first,
+/// last, middle or a generated position. Lengths up to beyond the V40-L capacity of every class (Numeric 7089,
+/// Alphanumeric 4296, Byte 2953): an input that exceeds the capacity of its most compact mode must be refused with the
+/// documented error, a shorter one built.
+pub fn long_with_intruder() -> BoxedStrategy<Vec<u8>> {
+    (0usize..2, prop_oneof![3 => 100usize..2900, 2 => 2900usize..4400, 1 => 4400usize..7200], 0usize..3, any::<u16>(), any::<u8>())
+        .prop_flat_map(|(base, len, intr_class, pos, where_)| {
+            (vec(class_byte(base), len), class_byte(intr_class)).prop_map(move |(mut s, b)| {
+                let p = match where_ % 4 {
+                    0 => 0,
+                    1 => s.len() - 1,
+                    2 => s.len() / 2,
+                    _ => pick(pos, s.len()),
+                };
+                s[p] = b;
+                s
+            })
+        })
+        .boxed()
+}
+
 pub fn run(e: &'static Engine) {
     e.set_rule(
         "Exhaustive: all 256 strings of length 1 and all 65 536 strings of length 2; all 3^k class patterns (digit / alnum-only / \
@@ -219,20 +240,7 @@ pub fn run(e: &'static Engine) {
     let mut jobs: Vec<Job> = Vec::new();
     for _ in 0..shards {
         jobs.push(Box::new(move |jc: &mut JobCtx| {
-            let strat = (0usize..2, prop_oneof![3 => 100usize..2900, 2 => 2900usize..4400, 1 => 4400usize..7200], 0usize..3, any::<u16>(), any::<u8>()).prop_flat_map(|(base, len, intr_class, pos, where_)| {
-                // lengths up to beyond the V40-L capacity of every class (Numeric 7089, Alphanumeric 4296, Byte 2953): an input
-                // that exceeds the capacity of its most compact mode must be refused with the documented error, a shorter one built
-                (vec(class_byte(base), len), class_byte(intr_class)).prop_map(move |(mut s, b)| {
-                    let p = match where_ % 4 {
-                        0 => 0,
-                        1 => s.len() - 1,
-                        2 => s.len() / 2,
-                        _ => pick(pos, s.len()),
-                    };
-                    s[p] = b;
-                    s
-                })
-            });
+            let strat = long_with_intruder();
             jc.run_prop(1 << 50, &strat, total / shards, to_json, |c, o| {
                 o.label("part:long_with_intruder");
                 o.sample("long_with_intruder", || to_json(c));
